@@ -305,6 +305,9 @@ type StrictReader struct {
 	Pos  int
 	Rel  int
 	Err  error
+	// Lenient: a negative count is not an error for Skip (it skips nothing), as in readers whose Skip only
+	// compares the count with what is buffered. The bufiox.Reader interface does not say what a negative count does.
+	Lenient bool
 }
 
 func (r *StrictReader) fail() error {
@@ -341,6 +344,9 @@ func (r *StrictReader) Peek(n int) ([]byte, error) {
 // Skip ...
 func (r *StrictReader) Skip(n int) error {
 	if n < 0 {
+		if r.Lenient {
+			return nil
+		}
 		return errors.New("negative count")
 	}
 	if n > len(r.Data)-r.Pos {
@@ -424,3 +430,42 @@ func (r *VirtualReader) ReadBinary(bs []byte) (int, error) {
 }
 func (r *VirtualReader) ReadLen() int          { return int(r.Pos - r.Rel) }
 func (r *VirtualReader) Release(e error) error { r.Rel = r.Pos; return nil }
+
+// RetainWriter is a bufiox.Writer that copies nothing before Flush: Malloc hands out regions of their own, and
+// WriteBinary keeps the caller's slice itself (the interface allows that: "before flush successfully, the buffer
+// should be valid"). What the caller's slices hold at Flush time is what is written.
+type RetainWriter struct {
+	parts [][]byte
+	n     int
+	Out   []byte
+}
+
+// Malloc ...
+func (w *RetainWriter) Malloc(n int) ([]byte, error) {
+	if n < 0 {
+		return nil, errors.New("verif: negative count")
+	}
+	b := make([]byte, n)
+	w.parts = append(w.parts, b)
+	w.n += n
+	return b, nil
+}
+
+// WriteBinary keeps bs by reference.
+func (w *RetainWriter) WriteBinary(bs []byte) (int, error) {
+	w.parts = append(w.parts, bs)
+	w.n += len(bs)
+	return len(bs), nil
+}
+
+// WrittenLen ...
+func (w *RetainWriter) WrittenLen() int { return w.n }
+
+// Flush appends everything to Out.
+func (w *RetainWriter) Flush() error {
+	for _, p := range w.parts {
+		w.Out = append(w.Out, p...)
+	}
+	w.parts, w.n = nil, 0
+	return nil
+}
